@@ -99,6 +99,10 @@ package minersc
 //@ func (SimpleNodes).reduce
 //@   prop C39
 //@   ensures[exact-count] maxNodes == min(limit, old(len(sns)))
+// both candidate lists are sorted by stake, highest first, ties by ascending id: the two comparator
+// closures handed to sort.SliceStable are proved to compute exactly this order
+//@   comparator[previous-members-by-stake] pmbNodes by $a.TotalStaked > $b.TotalStaked || ($a.TotalStaked == $b.TotalStaked && $a.ID < $b.ID)
+//@   comparator[candidates-by-stake] newNodes by $a.TotalStaked > $b.TotalStaked || ($a.TotalStaked == $b.TotalStaked && $a.ID < $b.ID)
 // (selectedNodes at that point: the x kept previous members, then the candidates taken without a draw)
 //@   at-call Perm assert[tied-candidates-only-through-the-draw] forall k in x..len(selectedNodes) :: selectedNodes[k].TotalStaked != stake
 //@   loop 2 header "for i, sn := range newNodes"
